@@ -194,12 +194,31 @@ def replay(path):
     return 0
 
 
+def hard_limit(tier):
+    """last line of defence against a check that hangs (a call of the code under test that neither returns nor lets the
+    per-call watchdog through): dump every thread's stack and leave with the infrastructure status 2 - never 0, never 1"""
+    import faulthandler
+    import threading
+    import time
+
+    limit = float(os.environ.get("VERIF_CHECK_TIMEOUT", "2400" if tier == "quick" else "21600"))
+
+    def watch():
+        time.sleep(limit)
+        print(f"INFRA: check still running after {limit:.0f}s", file=sys.stderr)
+        faulthandler.dump_traceback(file=sys.stderr, all_threads=True)
+        os._exit(2)
+
+    threading.Thread(target=watch, daemon=True).start()
+
+
 def main():
     try:
         if sys.argv[1] == "--replay":
             sys.exit(replay(sys.argv[2]))
         pid, tier = sys.argv[1], sys.argv[2] if len(sys.argv) > 2 else os.environ.get("VERIF_TIER", "quick")
         seed = int(os.environ.get("VERIF_SEED", "0"))
+        hard_limit(tier)
         sys.exit(run(pid, tier, seed))
     except core.Infra as e:
         print(f"INFRA: {e}", file=sys.stderr)
